@@ -244,6 +244,11 @@ def _sqrt_domain(tier, seed):
     for p in big + structured_primes():
         for a in (0, 1, 2, 3, 4, p - 1, p - 4, (p - 1) // 2, 9, pow(12345, 2, p), pow(p - 5, 2, p), 2 ** 64 % p):
             yield dict(a=a % p, p=p)
+    # a prime of more than 4300 decimal digits (the Mersenne prime 2^19937 - 1 = 3 mod 4, 6002 digits): CPython >= 3.11 refuses to
+    # write such numbers in decimal, so an error message built with %d turns SquareRootError into ValueError (finding F17)
+    m = 2 ** 19937 - 1
+    for a in (m - 1, 4, m - 4):
+        yield dict(a=a, p=m)
 
 
 _STRUCT = []
